@@ -13,7 +13,9 @@ worker is attached to the transaction (`phase i`); any number of workers is ther
 Deliberately over-approximated (safety only): WHICH transaction a worker claims (validation
 cursor, dependency graph, execution frontier) is left to the scheduler of the model, i.e. is
 arbitrary; the `finality_idx < validation_idx` pre-filter of `lock_finality_candidate` is dropped.
-Reads of a location with no preceding MV entry return the block-start value `base`.
+Reads of a location with no preceding MV entry are NOT atomic: the MV miss (`execRead`) and the
+read of the committed-state cache (`execFetch`) are separate actions, commits may happen in between,
+and the value read is that of the latest committed writer (`cval`), else the block-start value `base`.
 Import-free.
 -/
 import Grevm.Model.Block
@@ -69,6 +71,8 @@ inductive Phase where
   | idle
   /-- EVM run in progress: remaining program, reads so far (newest first), blocked-on-estimate -/
   | reading (p : Prog) (reads : List ReadRec) (blocked : Bool)
+  /-- the MV lookup of `read l k` missed; about to read the committed-state cache -/
+  | fetching (l : Loc) (k : Val → Prog) (reads : List ReadRec) (blocked : Bool)
   /-- `publish_writes`: locations still to publish; `newLoc` = a location outside the previous
       write set has been published -/
   | publishing (run : Pending) (todo : List Loc) (newLoc : Bool)
@@ -124,6 +128,21 @@ def resolve (mv : Loc → TxId → Option Entry) : (i : TxId) → Loc → Option
       | some e => some (i, e)
       | none => resolve mv i l
 
+/-- Value of location `l` in the committed state after the first `c` transactions were committed:
+    the write of the latest committed transaction below `c` whose (successful) result writes `l`,
+    else the block-start value. -/
+def cval (P : Params) (s : State) : Nat → Loc → Val
+  | 0, l => P.base l
+  | c + 1, l =>
+      match s.result c with
+      | some r =>
+          match r.out with
+          | .ok w _ => match lookup w l with
+              | some v => v
+              | none => cval P s c l
+          | .err _ => cval P s c l
+      | none => cval P s c l
+
 def updF {α : Type} (f : Nat → α) (i : Nat) (v : α) : Nat → α := fun j => if j = i then v else f j
 
 def setMv (mv : Loc → TxId → Option Entry) (l : Loc) (i : TxId) (e : Option Entry) :
@@ -149,6 +168,8 @@ def oldWrites (s : State) (i : TxId) : List (Loc × Val) :=
 inductive Act where
   | claimExec (i : TxId)
   | execRead (i : TxId)
+  /-- after an MV miss: read the committed-state cache (commits may have happened in between) -/
+  | execFetch (i : TxId)
   | execFinish (i : TxId)
   /-- publish location `l` of the write set (HashMap order is arbitrary) -/
   | publishOne (i : TxId) (l : Loc)
@@ -187,9 +208,13 @@ def step (P : Params) (s : State) : Act → Option State
           | some (j, e) =>
               some (setPhase s i (.reading (k e.val)
                 ({ loc := l, ver := some (j, e.inc), val := e.val } :: reads) (blocked || e.est)))
-          | none =>
-              some (setPhase s i (.reading (k (P.base l))
-                ({ loc := l, ver := none, val := P.base l } :: reads) blocked))
+          | none => some (setPhase s i (.fetching l k reads blocked))
+      | _ => none
+  | .execFetch i =>
+      match s.phase i with
+      | .fetching l k reads blocked =>
+          let v := cval P s s.com l
+          some (setPhase s i (.reading (k v) ({ loc := l, ver := none, val := v } :: reads) blocked))
       | _ => none
   | .execFinish i =>
       match s.phase i with
